@@ -328,6 +328,11 @@ def abort_oracle(v, S, t_abort, tick_abort, what):
             # queued for a slot (or created in the same instant) and entered later
             if en[1] > t_abort:
                 return '%s: %s, waiting at the %s, started later at %s' % (S, m, what, en[1])
+            # it took a slot freed within the abort instant: then it must be cancelled (or end by itself) in
+            # that same instant like every other running job
+            c = v.first(m, 'cancelled') if not v.is_sched(m) else (v.first(m, 'run-cancelled') or v.first(m, 'exit-raise') or v.first(m, 'exit-ret'))
+            if not (fin is not None and fin[1] == t_abort) and (c is None or (not v.is_sched(m) and c[1] != t_abort)):
+                return '%s: %s, waiting for a slot at the %s, got one in that instant and was not cancelled then' % (S, m, what)
     if end is not None and end[1] > t_abort + slack(v, S) + 1e-9:
         return '%s: run ended at %s, later than %s + cancellation/shutdown slack %s' % (S, end[1], t_abort, slack(v, S))
     return None
